@@ -42,9 +42,20 @@ def scenarios(seed, tier):
                     a['args'].pop('min_take', None)
                     s['extreme'] = True
         yield 'gen%d' % i, s
+    # the dispatch reported for a two-stage stochastic programme (mean over the scenarios) balances as well
+    from ..comp import slp as S
+    for i in range(n // 10):
+        r1 = random.Random(rnd.getrandbits(48))
+        yield 'slp%d' % i, {'_stream': 'slp', 'case': S.gen_straddle_case(r1) if i % 2 else S.gen_case(r1)}
 
 
 def run_case(scn, drv):
+    if scn.get('_stream') == 'slp':
+        from ..comp import slp as S
+        r0 = S.run_case(scn['case'], drv)
+        # of the oracles of C17 only the ones that are C01's statement (dispatch reported for an SLP result balances)
+        return {'evaluated': 1, 'nontrivial': bool(r0.get('nontrivial')), 'features': ['stream:slp'] + [f for f in r0['features'] if f.startswith(('family', 'impl', 'multi'))],
+                'disagreements': [], 'violations': [v for v in r0['violations'] if v['oracle'] in ('slp_dispatch_balance', 'slp_dispatch_mean')]}
     r = {'evaluated': 1, 'nontrivial': False, 'features': [], 'disagreements': [], 'violations': []}
     feats = r['features']
     for a in scn['assets']:
@@ -70,6 +81,22 @@ def run_case(scn, drv):
         r['nontrivial'] = nt > 0
         feats.append('solved')
         r['observed'] = {'node_steps_with_two_or_more_flows': nt, 'value': float(rec['res'].value)}
+    # "every solution returned": also the one of the relaxed problem (make_soft_problem) of a portfolio with boolean variables
+    if pf.is_mip(rec['op']) and not isinstance(rec['res'], str):
+        try:
+            import eaopack as eao
+            with impl.Quiet():
+                op_s = rec['portf'].setup_optim_problem(rec['prices'], rec['tg'])
+            res_s = impl.solve(op_s, make_soft_problem=True)
+            r['evaluated'] += 1
+            if not isinstance(res_s, str):
+                with impl.Quiet():
+                    out_s = eao.io.extract_output(rec['portf'], op_s, res_s, rec['prices'])
+                v, _ = pf.orc_nodal_balance(dict(rec, op=op_s, res=res_s, out=out_s), tag='soft')
+                r['violations'] += v
+                feats.append('soft-solution')
+        except Exception as e:
+            feats.append('soft-error:' + impl.err_class(e))
     # second set-up on the SAME portfolio and asset objects after changing factor-carrying parameters
     # (transport efficiency, commodity factors): balance must hold with the new factors
     try:
